@@ -226,13 +226,35 @@ def _append_hexital(prop, res, repo):
 
 
 def _append_manager(prop, res, repo):
+    """CandleManager.append: every normal path that does anything goes through self._tasks() last, and the manager tasks
+    (collapse / convert / trim) are run through _tasks() only -- no fast path, no extra task call that changes their order"""
     rule = "R-ORDER"
     mp = repo.method("hexital.core.candle_manager", "CandleManager", "append")
-    last = mp.node.body[-1]
-    if isinstance(last, ast.Expr) and isinstance(last.value, ast.Call) and call_target(last.value) == "self._tasks":
-        res.ok(rule, {"site": mp.where, "order": "extend -> self._tasks()"})
+    ok_all = True
+    n = 0
+    for p in stmt_paths(mp.node.body):
+        if not normal_exit(p):
+            continue
+        calls = [call_target(c) for c in path_calls(p)]
+        selfcalls = [c for c in calls if c.startswith("self.") and c not in ("self.name",)]
+        if not selfcalls:
+            continue  # e.g. an empty list: nothing appended
+        n += 1
+        others = [c for c in selfcalls if c not in ("self.candles.extend", "self._tasks")]
+        if selfcalls[-1] == "self._tasks" and selfcalls.count("self._tasks") == 1 and "self.candles.extend" in selfcalls and not others:
+            continue
+        ok_all = False
+        res.fail(rule, finding(prop, rule, mp, mp.node, "a path through CandleManager.append does not simply extend the list and then run self._tasks(): a fast path or an extra task call bypasses / re-orders collapse -> convert -> trim for some append sizes", construct="CandleManager.append path: " + " -> ".join(selfcalls)))
+    if ok_all and n:
+        res.ok(rule, {"site": mp.where, "paths": n, "order": "extend -> self._tasks() on every path that appends"}, nontrivial="CandleManager.append")
+    elif n == 0:
+        res.fail(rule, finding(prop, rule, mp, mp.node, "CandleManager.append no longer extends the list and runs the tasks", construct="CandleManager.append: no appending path"))
+    init = repo.method("hexital.core.candle_manager", "CandleManager", "__init__")
+    ic = [call_target(c) for c in calls_in(init.node) if call_target(c).startswith("self.")]
+    if ic == ["self._tasks"]:
+        res.ok(rule, {"site": init.where, "why": "construction runs exactly the same tasks as append"})
     else:
-        res.fail(rule, finding(prop, rule, mp, last, "CandleManager.append must finish with self._tasks()"))
+        res.fail(rule, finding(prop, rule, init, init.node, "CandleManager.__init__ must run the manager tasks through self._tasks() only", construct="CandleManager.__init__: " + " -> ".join(ic)))
 
 
 def check_tasks_order(prop: str, res: Result, repo: Repo, need=(("collapse", "convert"), ("convert", "trim"), ("collapse", "trim"))):
@@ -248,11 +270,9 @@ def check_tasks_order(prop: str, res: Result, repo: Repo, need=(("collapse", "co
                 res.ok(rule, {"site": t.where, "order": f"{a} before {b}"}, nontrivial=f"_tasks:{a}<{b}")
             else:
                 res.fail(rule, finding(prop, rule, t, t.node, f"manager tasks: {a} must run (once) before {b}", construct="_tasks: " + " -> ".join(names)))
-    init = repo.method("hexital.core.candle_manager", "CandleManager", "__init__")
-    if any(call_target(c) == "self._tasks" for c in calls_in(init.node)):
-        res.ok(rule, {"site": init.where, "why": "construction runs the same tasks as append"})
-    else:
-        res.fail(rule, finding(prop, rule, init, init.node, "CandleManager.__init__ no longer runs self._tasks()", construct="__init__: _tasks"))
+    tparams = [p for p in t.params if p != "self"]
+    if tparams:
+        res.fail(rule, finding(prop, rule, t, t.node, f"_tasks takes parameters {tparams}: the work it does must not depend on how it is called (batch and incremental runs must do the same)", construct=f"_tasks({', '.join(tparams)})"))
 
 
 def check_merge(prop: str, res: Result, repo: Repo):
@@ -345,3 +365,32 @@ def check_span(prop: str, res: Result, repo: Repo):
 
 def _span_one(a: ast.AST, b: ast.AST) -> bool:
     return isinstance(b, ast.BinOp) and isinstance(b.op, ast.Add) and ast.unparse(b.left) == ast.unparse(a) and _const(b.right) == 1
+
+
+def check_merge_callers(prop: str, res: Result, repo: Repo):
+    """who-may-call: Candle.merge is reached only from CandleManager.collapse_candles"""
+    rule = "R-CALLERS"
+    bad = 0
+    for fi in repo.all_functions():
+        for c in calls_in(fi.node):
+            if call_name(c) == "merge" and isinstance(c.func, ast.Attribute):
+                if fi.cls is not None and fi.cls.name == "CandleManager" and fi.name == "collapse_candles":
+                    res.ok(rule, {"site": f"{fi.where} {norm_construct(c)}", "caller": "collapse_candles"})
+                else:
+                    bad += 1
+                    res.fail(rule, finding(prop, rule, fi, c, "Candle.merge is called outside collapse_candles: candles are aggregated on a path that does not go through the bucket walk"))
+
+
+def check_round_by(prop: str, res: Result, repo: Repo):
+    """both drivers round every reading to the indicator's own round_value"""
+    rule = "R-ROUND"
+    for drv in ("calculate", "calculate_index"):
+        m = repo.method("hexital.core.indicator", "Indicator", drv)
+        rv = [c for c in calls_in(m.node) if call_name(c) == "round_values"]
+        good = rv and all(any(k.arg == "round_by" and ast.unparse(k.value) == "self.round_value" for k in c.keywords) or (len(c.args) == 2 and ast.unparse(c.args[1]) == "self.round_value") for c in rv)
+        stores = [c for c in calls_in(m.node) if call_name(c) == "_set_reading"]
+        wrapped = all(any(c2 in list(ast.walk(st)) for c2 in rv) or isinstance(st.args[0], ast.Name) for st in stores) if stores else False
+        if good and wrapped:
+            res.ok(rule, {"site": m.where, "round_by": "self.round_value"}, nontrivial=f"{drv}:round_by")
+        else:
+            res.fail(rule, finding(prop, rule, m, m.node, f"{drv} must round every reading with round_values(..., round_by=self.round_value) before storing it", construct=f"{drv}: round_by=self.round_value"))
